@@ -109,7 +109,10 @@ func registerSyncTimeModels(e *Engine) {
 	}
 	e.models["(*sync.WaitGroup).Add"] = modelNoop
 	e.models["(*sync.WaitGroup).Done"] = modelNoop
-	e.models["(*sync.WaitGroup).Wait"] = modelNoop
+	e.models["(*sync.WaitGroup).Wait"] = func(fr *frame, fn *ssa.Function, args []value) value {
+		fr.p.runQueuedGoroutines(fr)
+		return nil
+	}
 
 	// ---- time: a deterministic, strictly increasing clock (one second per call).
 	e.models["time.Now"] = func(fr *frame, fn *ssa.Function, args []value) value {
